@@ -35,13 +35,12 @@ Pool == <<
   [tls |-> <<<<>>, <<T7>>, <<T1, T5>>, <<>>>>,      s0 |-> 1, v0 |-> <<9, 4>>],
   [tls |-> <<<<T6>>, <<T3>>, <<>>, <<T4>>>>,        s0 |-> 2, v0 |-> <<0, 0>>] >>
 Cfg == Pool[K]
-Tls == [s \in States |-> Cfg.tls[s]]
 
-VARIABLES cur, ticks, paused, ov, vals, hist, obs, rng
+VARIABLES cur, ticks, paused, ov, vals, tls, hist, obs, rng
 
 INSTANCE Animator
 
-vars == <<cur, ticks, paused, ov, vals, hist, obs, rng>>
+vars == <<cur, ticks, paused, ov, vals, tls, hist, obs, rng>>
 I0(n) == <<"i", n>>
 Obs == [st |-> cur', ticks |-> ticks', paused |-> paused', ended |-> IsEnded', vals |-> vals']
 
@@ -50,7 +49,7 @@ Op(o) == /\ IF o.op = "adv" THEN Advance(o.dt) ELSE SetState(o.st)
          /\ hist' = Append(hist, o)
          /\ obs' = Append(obs, Obs)
 
-Init == /\ AInit(Cfg.s0, [p \in 1..NP |-> I0(Cfg.v0[p])])
+Init == /\ AInit([s \in States |-> Cfg.tls[s]], Cfg.s0, [p \in 1..NP |-> I0(Cfg.v0[p])])
         /\ hist = <<>> /\ obs = <<>>
         /\ rng \in (IF NRand = 0 THEN {0} ELSE {((((Seed * 7919) + (i * 104729)) % 65521) + 1) : i \in 1..NRand})
 DtSeq == CHOOSE f \in [1..Cardinality(DTs) -> DTs] : \A i, j \in 1..Cardinality(DTs) : i # j => f[i] # f[j]
@@ -65,12 +64,12 @@ Next == /\ Len(hist) < Depth
                 /\ rng' = r2
 Spec == Init /\ [][Next]_vars
 
-View == <<cur, ticks, paused, ov, vals, Len(hist)>>
+View == <<cur, ticks, paused, ov, vals, tls, Len(hist)>>
 
 EndedIff == IsEnded <=> (~HasTl(cur) \/ F32Round(ticks) >= TotalOfState(cur))
 TerminalWhenEnded ==
   (HasTl(cur) /\ IsEnded) => vals = Recompute(cur, NoOvAll, TotalOfState(cur) + 1000, vals)
-NeverEndedIfInfinite == (HasTl(cur) /\ \E i \in 1..Len(Tls[cur]) : Unbounded(Tls[cur][i].tm)) => ~IsEnded
+NeverEndedIfInfinite == (HasTl(cur) /\ \E i \in 1..Len(tls[cur]) : Unbounded(tls[cur][i].tm)) => ~IsEnded
 
 Emit == (EmitLines /\ (Len(hist) = Depth \/ (rng # 0 /\ Len(hist) > 0 /\ (Len(hist) % 8) = 0))) =>
   PrintT(<<"REPLAY", ToJson([kind |-> "anim", pd |-> PD, np |-> NP, k |-> K, tls |-> Cfg.tls, s0 |-> Cfg.s0,
